@@ -24,7 +24,8 @@ TRUSTED = [
 ]
 
 
-LEAN_TARGETS = ["QuriVerif.Props.C01", "QuriVerif.Props.Reflect"]
+LEAN_TARGETS = ["QuriVerif.Props.C01", "QuriVerif.Props.Reflect", "QuriVerif.Props.ReflectLift", "QuriVerif.Props.C01Lift", "QuriVerif.Props.C01Pass"]
+REFLECT = ["QuriVerif.Props.Reflect", "QuriVerif.Props.ReflectLift", "QuriVerif.Props.C01Lift", "QuriVerif.Props.C01Pass"]
 LEAN_TARGETS_THOROUGH = ["QuriVerif.Props.C01Deep"]
 
 
@@ -402,8 +403,33 @@ def structured_u4(rng):
     from oracle import dense
 
     r = rng.random()
-    if r < 0.5:
+    if r < 0.3:
         return dense.random_unitary(rng, 4)
+    if r < 0.5:
+        # degenerate / conjugate-paired KAK spectra: controlled rotations (either control), exp(i(aXX+bYY+cZZ)) with
+        # coinciding or vanishing interaction coefficients, optionally dressed with local unitaries
+        X, Y, Z, I2 = dense.ONE["X"], dense.ONE["Y"], dense.ONE["Z"], np.eye(2)
+        ang = rng.choice([math.pi / 2, math.pi, math.pi / 4, -math.pi / 2, 3 * math.pi / 4, rng.uniform(-3.1, 3.1)])
+        kind = rng.choice(["crot", "crot", "xxyyzz", "cu"])
+        if kind == "crot":
+            ax = rng.choice([X, Y, Z])
+            rot = math.cos(ang / 2) * I2 - 1j * math.sin(ang / 2) * ax
+            P0, P1 = np.diag([1, 0]).astype(complex), np.diag([0, 1]).astype(complex)
+            m = np.kron(I2, P0) + np.kron(rot, P1) if rng.random() < 0.5 else np.kron(P0, I2) + np.kron(P1, rot)
+        elif kind == "cu":
+            u = dense.random_unitary(rng, 2)
+            P0, P1 = np.diag([1, 0]).astype(complex), np.diag([0, 1]).astype(complex)
+            m = np.kron(I2, P0) + np.kron(u, P1) if rng.random() < 0.5 else np.kron(P0, I2) + np.kron(P1, u)
+        else:
+            a = rng.choice([0.0, ang / 2, math.pi / 4])
+            b = rng.choice([0.0, a, -a, rng.uniform(-1, 1)])
+            c = rng.choice([0.0, a, b])
+            h = a * np.kron(X, X) + b * np.kron(Y, Y) + c * np.kron(Z, Z)
+            w, v = np.linalg.eigh(h)
+            m = (v * np.exp(1j * w)) @ v.conj().T
+        if rng.random() < 0.4:
+            m = np.kron(dense.random_unitary(rng, 2), dense.random_unitary(rng, 2)) @ m @ np.kron(dense.random_unitary(rng, 2), dense.random_unitary(rng, 2))
+        return m
     if r < 0.6:
         return np.kron(dense.random_unitary(rng, 2), dense.random_unitary(rng, 2))
     if r < 0.7:
@@ -531,6 +557,27 @@ def validate(ctx: Ctx, budget_s: float):
             n_eval += 1
             if d > 1e-7:
                 ctx.witness("transpile:" + cls.__name__, f"{cls.__name__} differs by {d:.3g}", describe_circ(circ))
+    # the KAK decomposition on its own: structured two-qubit unitaries (degenerate spectra included) must be
+    # decomposed faithfully or refused – never silently turned into another operator
+    from quri_parts.circuit import QuantumCircuit as _QC
+    from quri_parts.circuit import gates as _gates
+
+    for _ in range(60 if ctx.quick() else 1500):
+        m = structured_u4(rng)
+        c = _QC(2)
+        tg = rng.choice([[0, 1], [1, 0]])
+        c.add_gate(_gates.UnitaryMatrix(tg, m.tolist()))
+        n_eval += 1
+        try:
+            out = T.TwoQubitUnitaryMatrixKAKTranspiler()(c)
+        except Exception as e:  # noqa: BLE001 – refusing is allowed
+            ctx.count("validate.kak", "raised:" + type(e).__name__)
+            continue
+        d = dense.phase_dist(dense.circuit_unitary(2, out.gates), dense.circuit_unitary(2, c.gates))
+        ctx.count("validate.kak", "ok" if d <= 1e-6 else "MISMATCH")
+        if d > 1e-6:
+            ctx.witness("transpile:TwoQubitUnitaryMatrixKAKTranspiler", f"KAK decomposition differs from the input matrix by {d:.3g} (up to phase), no error raised",
+                        describe_circ(c), {"dist": d})
     ionq_validate(ctx, TI)
     clifford_approx_validate(ctx, T)
     ctx.extra["oracle_validation"] = {"evaluations": n_eval, "worst_phase_dist_ok": worst}
@@ -716,13 +763,16 @@ def run(ctx: Ctx, replay=None) -> int:
     ctx.assumptions = ["documented gate matrices (gates.py) define the semantics", "angles on the π/64 grid for the model correspondence"]
     tp, desc, tab, presets = gen(ctx)
     deep = [] if ctx.quick() else ["QuriVerif.Props.C01Deep"]
-    ok = ctx.prove(["QuriVerif.Props.C01", "QuriVerif.Props.Reflect", "QuriVerif.Driver.All"] + deep,
-                   ["QuriVerif.Props.C01", "QuriVerif.Props.Reflect", "QuriVerif.Generated.C01Templates", "QuriVerif.Generated.C01Ladders",
+    ok = ctx.prove(["QuriVerif.Props.C01"] + REFLECT + ["QuriVerif.Driver.All"] + deep,
+                   ["QuriVerif.Props.C01"] + REFLECT + ["QuriVerif.Generated.C01Templates", "QuriVerif.Generated.C01Ladders",
                     "QuriVerif.Generated.C01Tables"] + deep)
     if ok:
         names = [f"QV.Props.C01.{n}" for _, n, _ in ctx.count_obligations(["QuriVerif.Props.C01"])]
-        names += [f"QV.Props.Reflect.{n}" for _, n, _ in ctx.count_obligations(["QuriVerif.Props.Reflect"]) if n != "hh_exact"]
-        ctx.audit(names, ["QuriVerif.Props.C01", "QuriVerif.Props.Reflect"])
+        private = {"hh_exact", "rxT_exact", "rxT_nz", "cnotT_check", "cnotT_nz", "u3T_check", "u3T_nz", "toffoliT_check", "toffoliT_nz"}
+        names += [f"QV.Props.Reflect.{n}" for _, n, _ in ctx.count_obligations(REFLECT[:2]) if n not in private]
+        names += [f"QV.Props.C01Lift.{n}" for _, n, _ in ctx.count_obligations(REFLECT[2:3])]
+        names += [f"QV.Props.C01Pass.{n}" for _, n, _ in ctx.count_obligations(REFLECT[3:]) if n != "circ3_ok"]
+        ctx.audit(names, ["QuriVerif.Props.C01"] + REFLECT)
         with ctx.timed("correspond"):
             check_factories(ctx)
             check_gate_semantics(ctx)
